@@ -159,6 +159,8 @@ def typecheck_programs(ctx):
                 continue
             text = item.replace("TRAITS", lst) if "TRAITS" in item else "#[derive_ex::derive_ex(%s)]\n%s" % (lst, item)
             progs.append(E.Prog("p_tc_%s_%d" % (sn, li), text + rp, [], {"describe": "type-checks: derive_ex(%s) %s" % (lst, item.replace("TRAITS", lst).replace("\n", " "))}))
+    # recorded finding: a declared bound that pins the operator's Output to a type written differently from the field type
+    progs.append(E.Prog("p_kf_output_pinned", "#[derive_ex::derive_ex(Not)]\npub struct X<T: core::ops::Not<Output = bool>>(pub T);" + rp, [], {"describe": "type-checks: derive_ex(Not) pub struct X<T: Not<Output = bool>>(pub T);"}))
     return E.run_family(ctx, "C03", progs, None)
 
 
